@@ -9,6 +9,26 @@ def run(ctx):
                 "destination (file, fifo, other device, link), --no-clobber, permission bits x umask {0, 022, 077}, block device alone and in a "
                 "tree; both drivers; non-trivial = every scenario here (each has a special node); distinct by (scenario, driver)")
     nsprop.run(ctx, "C14", scs, nontrivial=lambda sc: True)
+    # "never opened for reading": system-call traces of fresh copies and of re-copies over existing nodes (Trace_Ev, NoOpenSpecial)
+    from .. import build, evplane, runner
+    binary = build.xcp()
+    traced = [s for s in scs if s["id"] in ("spec-tree-absent", "spec-tree-existing", "spec-recopy-samekind-0", "spec-recopy-sole-fifo-22", "spec-sole-p-fresh",
+                                             "spec-sole-null-replace", "spec-sole-so-intodir")]
+    tj = [(sc, d) for sc in traced for d in nsprop.DRIVERS]
+    def one(j):
+        sc, d = j
+        special = ["/".join(e["p"]) for e in sc["fs0"] if e["k"] in ("fifo", "sock", "chr", "blk") and e["p"][0] != "d"]
+        srcs = sorted({a["norm"][0] for a in sc["sources"]})
+        return evplane.traced_tree_run(binary, sc, d, "c14t-%s-%s" % (sc["id"], d), {"fsync": False, "reflink": "auto"}, workers=2, special=special, src_prefixes=srcs)
+    res = runner.pmap(one, tj)
+    ev, st = evplane.judge([r[1] for r in res], len(res))
+    ctx.states += st["distinct"]; ctx.transitions += st["generated"]
+    for (sc, d), (o, recs, n), v in zip(tj, res, ev):
+        ctx.traces += 1; ctx.case(("trace", sc["id"], d), True)
+        if "C14" in v["viol"]:
+            ctx.violation("C14: a special source file was opened during %s (%s)" % (sc["id"], d), {"kind": "c14-open", "scenario": sc["id"], "driver": d, "verdict": v},
+                          sig={"scenario": sc["id"], "driver": d, "kind": "open"})
+    ctx.notes["traced_runs_for_no_open"] = len(tj)
 
 def replay(ctx, path):
     nsprop.replay(ctx, "C14", path)
